@@ -36,7 +36,7 @@ func InitGenesis(ctx sdk.Context, k keeper.Keeper, state *types.GenesisState) {
 		k.SetAuctionParams(ctx, item)
 	}
 
-	for _, item := range state.DutchAuction {
+	for _, item := range state.DutchLendAuction {
 		k.SetGenLendDutchLendAuction(ctx, item)
 		lendAuctionID = item.AuctionId
 	}
